@@ -664,12 +664,10 @@ class MQTTProtocol(MQTTBaseProtocol):
     # Helper methods (publisher/subscriber)
     # -------------------------------------
 
-    def doConnectionLost(self, reason):
+    def _cancelAlarms(self):
         '''
-        Additional connection lost clean up.
+        Cancels the retransmission alarms of all pending requests.
         '''
-       
-        # Cancel Alarms first
         for _, request in self.factory.windowSubscribe[self.addr].items():
             if request.alarm is not None:
                 request.alarm.cancel()
@@ -686,6 +684,16 @@ class MQTTProtocol(MQTTBaseProtocol):
             if request.alarm is not None:
                 request.alarm.cancel()
                 request.alarm = None
+
+    # --------------------------------------------------------------------------
+
+    def doConnectionLost(self, reason):
+        '''
+        Additional connection lost clean up.
+        '''
+       
+        # Cancel Alarms first
+        self._cancelAlarms()
         # Then, invoke errbacks anyway if we do not persist state
         if self._cleanStart:
             for k in list(self.factory.windowSubscribe[self.addr]):
